@@ -62,8 +62,8 @@ def apply_ref(block, records):
 
 # ---- async -------------------------------------------------------------------------------
 class A5(ARig):
-    def __init__(self):
-        super().__init__()
+    def __init__(self, early=None):
+        super().__init__(early=early)
         # leave the connected block alone (C01 rig swapped in pattern blocks): use them as is
         self.acks = []
         self.mark = len(self.net.sent)
@@ -99,15 +99,32 @@ class A5(ARig):
         return t.done() and t.exception() is None and t.result() is True
 
 
-def _run_async(history):
-    rig = A5()
+def _early_check(injected, records, block_at_connect, peer_block, acks):
+    """A partial update that arrived during the handshake: after the connection is up the block is the spa's block,
+    with or without that update on top (it may have landed before or after the initial full transfer); one STATQ."""
+    if not injected:
+        return None
+    if block_at_connect not in (peer_block, apply_ref(peer_block, records)):
+        return ("block", "after a handshake with a partial update in it the client block is neither the spa's block nor "
+                         "the spa's block with that update applied")
+    if acks != 1:
+        return ("ack-count", f"{acks} STATQ for the partial update that arrived during the handshake")
+    return None
+
+
+def _run_async(history, early=None):
+    rig = A5(early=(early[0][0], frame(SPA_ID, CLIENT_ID, statp(early[1])), early[0][1]) if early else None)
     lc = rig.spa.log_class
     p, p1, q = _positions(lc.begin)
     ref = rig.spa.struct.status_block
     spa_blk = rig.peer.block
     why = None
     step = 0
-    for step, (kind, arg) in enumerate(history):
+    if early:
+        n_ack = sum(1 for (t, src, dst, data) in rig.net.sent[:rig.mark]
+                    if src == rig.client_addr and (unframe(data) or (0, 0, b""))[2].startswith(b"STATQ"))
+        why = _early_check(rig.early_injected, early[1], rig.block_at_connect, rig.peer_block_at_connect, n_ack)
+    for step, (kind, arg) in enumerate(history if why is None else []):
         n_statp = 0
         alts = None
         if kind in ("P", "P1"):
@@ -173,9 +190,9 @@ def _run_async(history):
 
 
 # ---- threaded ----------------------------------------------------------------------------
-def _run_threaded(history):
+def _run_threaded(history, early=None):
     rig = stepped.TRig()
-    if not rig.connect():
+    if not rig.connect(early=(early[0][0], frame(SPA_ID, CLIENT_ID, statp(early[1])), early[0][1]) if early else None):
         raise core.HarnessError("C05: threaded client did not connect")
     rig.run_for(0.5)
     lc = rig.spa.new_log_class
@@ -203,7 +220,10 @@ def _run_threaded(history):
         rig.run_for(30.0, pred=lambda: req not in rig.spa._receive_handlers)
         return req not in rig.spa._receive_handlers
 
-    for step, (kind, arg) in enumerate(history):
+    if early:
+        n_ack = sum(1 for (t, data, dest) in rig.client_sent[:mark] if (unframe(data) or (0, 0, b""))[2].startswith(b"STATQ"))
+        why = _early_check(rig.early_injected, early[1], rig.spa.struct.status_block, rig.peer.block, n_ack)
+    for step, (kind, arg) in enumerate(history if why is None else []):
         n_statp = 0
         alts = None
         if kind in ("P", "P1"):
@@ -265,22 +285,42 @@ def _run_threaded(history):
 
 
 def _job(job):
-    kind, idxs = job
+    kind, idxs = job[0], job[1]
+    k = job[2] if len(job) > 2 else None
     lib.reset_library()
     # positions depend on the log range of the default snapshot's tables; compute once per run
     alpha = _ALPHA[kind]
     hist = [alpha[i] for i in idxs]
-    why, step, end = (_run_async if kind == "async" else _run_threaded)(hist)
+    if k:
+        k = tuple(k)
+    early = (k, [(_POS["ppq"][0], A)]) if k else None
+    why, step, end = (_run_async if kind == "async" else _run_threaded)(hist, early=early)
     if why:
         names = [alpha[i][0] + (str(len(alpha[i][1])) if alpha[i][0].startswith("P") else "") for i in idxs]
-        return (f"C05|{kind}|{why[0]}|event={alpha[idxs[step]][0]}",
-                f"{kind} client, history {names} (alphabet indices {list(idxs)}), at step {step}: {why[1]}",
-                {"kind": kind, "history": list(idxs)}), end
+        ev = alpha[idxs[step]][0] if idxs else "EARLY"
+        pre = f"a partial update [(p,A)] arriving {k[1]} s after the client's datagram no. {k[0]} of the handshake, then " if k else ""
+        return (f"C05|{kind}|{why[0]}|{'early|' if k else ''}event={ev}",
+                f"{kind} client, {pre}history {names} (alphabet indices {list(idxs)}), at step {step}: {why[1]}",
+                {"kind": kind, "history": list(idxs), "early": k}), end
     return None, end
 
 
 _ALPHA = {}
 _POS = {}
+
+
+def _handshake_sends(kind):
+    """Number of client datagrams in a fault-free handshake (measured on the tree under test)."""
+    lib.reset_library()
+    if kind == "async":
+        r = ARig()
+        n = sum(1 for x in r.net.sent[:r.connect_mark] if x[2] == SPA_ADDR)
+        r.close()
+        return n
+    t = stepped.TRig()
+    if not t.connect():
+        raise core.HarnessError("C05: threaded client did not connect")
+    return len(t.client_sent)
 
 
 def all_messages():
@@ -353,6 +393,29 @@ def run(ctx):
         ctx.log(f"{kind}: {len(jobs)} histories to depth {depth[kind]} over {n_alpha} events")
         ctx.set(f"histories_{kind}", len(jobs))
         ctx.set(f"depth_{kind}", depth[kind])
+        # non-initial start: one partial update lands during the handshake (after the client's k-th datagram, every k),
+        # then every history to a smaller depth
+        ejobs = []
+        ed = 2
+        delays = (0.005, 0.2, 0.4) if ctx.quick else (0.005, 0.05, 0.1, 0.2, 0.3, 0.4, 0.5)
+        HANDSHAKE_SENDS = _handshake_sends(kind)
+        if HANDSHAKE_SENDS < 4:
+            raise core.HarnessError(f"C05: only {HANDSHAKE_SENDS} client datagrams in a handshake")
+        for k in range(1, HANDSHAKE_SENDS + 1):
+            for dl in delays:
+                for d in range(0, ed + 1):
+                    for idxs in itertools.product(range(n_alpha), repeat=d):
+                        ejobs.append((kind, idxs, (k, dl)))
+        injected = 0
+        for res, end in core.pimap(ctx, _job, ejobs, chunksize=max(1, len(ejobs) // (ctx.workers * 8))):
+            traces += 1
+            states.add((kind, "early", end))
+            if res:
+                ctx.violation(*res)
+        transitions += sum(len(j[1]) + 1 for j in ejobs)
+        ctx.set(f"early_histories_{kind}", len(ejobs))
+        ctx.log(f"{kind}: {len(ejobs)} histories that begin with a partial update inside the handshake "
+                f"(after datagram k=1..{HANDSHAKE_SENDS} + {list(delays)} s, then depth <= {ed})")
     # every single message (record lists up to length 3) on a fresh client, alone and after a refresh
     nmsg = len(all_messages())
     jobs = []
@@ -401,7 +464,7 @@ def replay(ctx, data):
         if why:
             ctx.violation(f"C05|{data['kind']}|{why[0]}|single-message", why[1], data)
     else:
-        res, _ = _job((data["kind"], tuple(data["history"])))
+        res, _ = _job((data["kind"], tuple(data["history"]), data.get("early")))
         if res:
             ctx.violation(*res)
     ctx.set("states", 1)
